@@ -2,10 +2,20 @@
    Z, positive, N, nat stay the extracted inductives; no Extract Constant). *)
 From Coq Require Extraction.
 From Coq Require Import ExtrOcamlBasic.
-From RLBoxV Require Import Machine Conv Conv_proofs.
+From RLBoxV Require Import Machine Conv Conv_proofs Ptr Bulk Layout.
 Extraction Language OCaml.
 Extraction "model.ml"
-  Z.add Z.mul Z.sub Z.div_eucl Z.of_nat Z.to_nat Z.eqb Z.leb Z.ltb Z.opp
-  all_ikinds ikind_eqb size signed lo hi in_range wrap w64
+  Z.add Z.mul Z.sub Z.div_eucl Z.of_nat Z.to_nat Z.eqb Z.leb Z.ltb Z.opp Z.pow Z.modulo
+  bind check
+  all_ikinds ikind_eqb size signed lo hi in_range wrap w64 M64
   conv conv_branch conv_spec conv_array conv_spec_list n2_pair memcpy_path
-  sbx_equiv abi_host abi_lp32 abi_wide to_sbx to_app.
+  sbx_equiv abi_host abi_lp32 abi_wide to_sbx to_app
+  region_of same_sbx unsandbox sandbox_ptr unsandbox_noctx sandbox_ptr_noctx load_ptr_cell store_ptr_cell
+  ptr_arith ptr_index_gen ptr_arith_spec arith_wraps arith_exact field_addr
+  arr_index arr_index_spec check_range range_good range_inside range_outside
+  assign_raw_pointer assign_raw_pointer_vol malloc_in_sandbox app_pointer_addr
+  step_pop run_chain fields_safe field_safe rep_ok
+  arith_form arith_form_spec form_n form_sub
+  code_postdec_fixed code_index_nullcheck code_range_guarded
+  rl_memset rl_memcpy rl_memcmp verify_range counted_good usp_because copy_or_deny copy_or_grant acc_good
+  sizeof alignof offsets labi_host labi_lp32 labi_lp32_16 labi_wide.
